@@ -34,6 +34,8 @@ def run(ctx):
     ctx.rule("R04.1b", "every (non-Unsupported) field of every LEF structure the parser builds is filled from the input somewhere, not only by its default")
     ctx.rule("R04.2", "keywords and enumerated words are upper-cased before they are matched")
     ctx.rule("R04.3", "numbers are kept as the exact decimal written: LefDecimal values come from Decimal::from_str on the token text, never through f64; mantissa() is only read at scale 0")
+    from rules import mergerules as mr
+    mr.rule_no_overwrite_in_loop(ctx, "R04.1c", ["lef21::read::"], floor=10)
     parsers = [f for f in F.fns.values() if f.id.startswith(PARSER) and f.kind != "Closure" and "LefParser" in f.name and not f.derived]
     n_steps = 0
     n_fields = 0
